@@ -160,8 +160,8 @@ def showKey (k : List String) : String := "\x1f".intercalate k
 def hexOf (s : String) : String := bytesHex (s.toUTF8.toList.map (·.toNat))
 
 /-- the specification's answer; `blocks` = the flushed events in their blocks (only the latitude `nsgrant` of `recs` depends
-on the blocks) -/
-def answerB (blocks : List (List Event)) (q : Query) : String :=
+on the blocks); `pqFilters` = the filters that were run INSIDE the history (tokens `rq/…`) with persistent-query results on -/
+def answerB (blocks : List (List Event)) (q : Query) (pqFilters : List String := []) : String :=
   let evs := blocks.flatten
   let inr := evs.filter (inRange q.start q.end_)
   let tri := inr.map (fun e => (e, evalFilter e q.filter))
@@ -172,7 +172,14 @@ def answerB (blocks : List (List Event)) (q : Query) : String :=
   -- (repaired, patch c03-G: a query with a NEGATED free-text term that was already persistent when a segment was created
   -- got that segment's results from writer.applySearchSingleQuery, which ignored the negation; the class label
   -- pq-ingest-negated-term is no longer emitted, a recurrence is reported without a class)
-  let cls := (tri.flatMap (fun (_, (_, c)) => c)).eraseDups
+  let may0 := tri.filter (fun (_, (t, _)) => t == Tri.either)
+  -- recorded deviation (known_findings: e2e/layout-differs/pq-ingest-record-without-query-columns): the ingest-time
+  -- evaluation of a persistent query (writer.WritePackedRecord) skips a record that has none of the persistent queries'
+  -- columns, and answers "no" for a column the block does not have: an event LACKING the compared field — which `!=` / NOT
+  -- hold for at query time, and which the statement leaves to the engine — is then missing from the stored results.  Class:
+  -- the filter was run inside the history with PQS on, and some event in range is left to the engine.
+  let pqcls := if pqFilters.contains q.ftext && !may0.isEmpty then ["pq-ingest-record-without-query-columns"] else []
+  let cls := (tri.flatMap (fun (_, (_, c)) => c) ++ pqcls).eraseDups
   let must := (tri.filter (fun (_, (t, _)) => t == Tri.yes)).map (·.1)
   let may := (tri.filter (fun (_, (t, _)) => t == Tri.either)).map (·.1)
   match q.stages with
@@ -221,13 +228,15 @@ def answer (evs : List Event) (q : Query) : String := answerB [evs] q
 
 def e2e (args : List String) : String :=
   -- split at the markers H and Q
-  let (_cfg, r1) := args.span (· != "H")
+  let (cfg, r1) := args.span (· != "H")
   let (hist, r2) := (r1.drop 1).span (fun t => t != "Q" && t != "H2")
   -- an optional second layout of the SAME events (H2 …) does not change the specification's answer
   let r2 := r2.dropWhile (· != "Q")
   let qs := (r2.drop 1).filter (fun t => t != "w" && t != "pqcheck")
   match flushedBlocks hist, qs.mapM parseQuery with
-  | some blocks, some qs => " | ".intercalate (qs.map (answerB blocks))
+  | some blocks, some qs =>
+    let pqf := if cfg.contains "pqs=0" then [] else (hist.filter (·.startsWith "rq/")).map (fun t => (t.drop 3).toString)
+    " | ".intercalate (qs.map (fun q => answerB blocks q pqf))
   | _, _ => "bad-op"
 
 def handle (cmd : String) (args : List String) : Option String :=
